@@ -273,5 +273,10 @@ func ByName(name string) (reflect.Type, bool) {
 			return e.Type, true
 		}
 	}
+	for _, e := range Types2 {
+		if e.Name == name {
+			return e.Type, true
+		}
+	}
 	return nil, false
 }
